@@ -79,6 +79,11 @@ def run(ctx):
     for items in rng.sample(base, 12 if ctx.tier == "quick" else 80) + [[], ["gzip"], ["zip"], ["-ar"], ["-gzip"], ["jar", "gzip"]]:
         for epoch in (5894967296, 100000000, -5, 4354819200):      # (values at which the sample files of the usable handlers are still dirty)
             cases.append((items, epoch, "one", rng.choice([[], [], ["-j2"]])))
+    # the same under the options of an rpm build (--brp with the tree inside $RPM_BUILD_ROOT), which change reporting but not selection
+    for items in [[], ["gzip"], ["zip"], ["jar", "gzip"], ["-ar"], ["ar", "zip"]]:
+        for epoch in (samples.EPOCH, 5894967296, -5):
+            for extra_args in (["--brp"], ["--brp", "-j2"], ["-v"]):
+                cases.append((items, epoch, "one", extra_args))
     # split over several --handler options, and with workers
     for items in rng.sample([b for b in base if len(b) >= 2], 24 if ctx.tier == "quick" else 120) + extra[:4]:
         cases.append((items, samples.EPOCH, "split", []))
@@ -112,7 +117,7 @@ def run(ctx):
                 else:
                     args.append("--handler=" + ",".join(items))
             args.append(t.path("d"))
-            rc, out = fh.run_cli(args, epoch=epoch, timeout=60)
+            rc, out = fh.run_cli(args, epoch=epoch, timeout=60, env_extra=({"RPM_BUILD_ROOT": t.root} if "--brp" in extra_args else None))
             after = {n: open(t.path("d/" + n), "rb").read() for n in files}
             acted = set()
             for n, (data, hs) in files.items():
@@ -154,7 +159,7 @@ def run(ctx):
     ctx.coverage.update({
         "evaluations": len(cases), "distinct_nontrivial": len(distinct),
         "rule": "all 2*2^7 positive and negative subsets of the seven handler names plus mixed / unknown / empty / duplicated / upper-case forms, each with and without "
-                "SOURCE_DATE_EPOCH, a sample split over several --handler options and a sample with -j2, applied to a tree holding one dirty file per handler; "
+                "SOURCE_DATE_EPOCH, a sample split over several --handler options, a sample with -j2, and selections under --brp / --brp -j2 / -v with usable and unusable epochs, applied to a tree holding one dirty file per handler; "
                 "observed: which files changed (for the .pyc which of the two handlers acted), exit status; compared with the documented function (python) and with the model",
         "samples": samples_out, "exhaustive": True, "correspondence_mismatches": len(mism), "oracle_failures": len(fails),
     })
